@@ -357,6 +357,8 @@ def resolveStep (named : Bool) (as : List A) (g : G) : Bool × Nat × G × List 
   if named then
     let (r, as) := nextA as
     match r with
+    -- std::async threw (no resolver thread): since FC02b caught inside doConnect, the id gets its close like any failed resolve
+    | .throw => (true, 0, failConnect .resolveThrow g, as)
     | .timeout => (true, 0, failConnect .resolveTimeout g, as)
     | .addrs 0 => (true, 0, failConnect .resolveFail g, as)        -- `rc != 0 || !res`
     | .addrs n => (false, n, g, as)
@@ -494,7 +496,8 @@ def clientRead (sid : Sid) : List A → G → Bool × G × List A
   | a :: r, g =>
     match a with
     | .data => clientRead sid r (dataCb sid g)
-    | .eof => (true, dataCb sid g, r)
+    -- a zero-length datagram is delivered (empty view) and the loop goes on (since fix 9828b32 it no longer ends the loop)
+    | .eof => clientRead sid r (dataCb sid g)
     | .again => (true, g, r)
     | _ => (false, closeNow sid .ucRecvErr g, r)
 
